@@ -41,6 +41,33 @@ CLAIMED["C19"] = dict(engine="conf", design="3 C19",
    note="Trusted: TLC, Json module, the harness's rendering of abstract values into concrete YAML/JSON and back. Open findings ZERO (explicit zero indistinguishable from absent) and S12 (include-hidden) are exempted by switches and reported as KNOWN-FINDING when reproduced.",
    technique="TLA+ transcription of configuration inheritance enumerated by TLC; every document replayed on sts.NewConf; TLC trace validation")
 
+SENDER_NOTE = ("Trusted: TLC, the Json module, the harness's decorators around the Broker's component interfaces (real cache.JSON, store.Local, queue.Tagged, "
+  "http.Client, log.FileIO behind recording wrappers; faults injected in the wrapped Transmitter / Validator / recovery functions and in a wrapping gatekeeper on the receiving side), "
+  "its projection of the receiver's disk (final, held .wait, log records, staged files) and of the source directory. The Broker runs with real goroutines: every schedule of "
+  "SenderEnv.tla is one observed interleaving per round; environment actions are placed at interface-call indices (or at the k-th call of one kind), not between arbitrary instructions. "
+  "Verdicts that depend on how long the harness waited (termination, delivery at the end) count only if they reproduce when the schedule runs alone. Open finding S23 is exempted by a switch.")
+def sender_entry(text, technique):
+    return dict(engine="sender", design="3 sender", category="fault_enumeration", text=text, note=SENDER_NOTE, technique=technique)
+ST = "TLA+ environment model (SenderEnv.tla) enumerated by TLC; every schedule executed on the real client.Broker against a real receiver; TLC trace validation of the recorded execution against the formulas of SenderTrace.tla"
+CLAIMED["C02"] = sender_entry("TLC enumerates file changes (rewrite, touch, delete; same and different size) at every interface call of the Broker and at the k-th call of every kind, with deletion on/off, poll delay shorter and longer than the scan delay, sender crashes at every call, lost / failed poll answers; each schedule runs on the real Broker + real receiver and TLC checks on every prefix of the recorded execution that a file is marked done only for the cached version the receiver holds validated after a positive poll, that a deletion concerns exactly the content the source has at that instant, and that the receiver answers positively only for what it holds.", ST)
+CLAIMED["C03"] = sender_entry("Liveness as bounded delivery: for every schedule of the fault, crash and change families (every failure kind at every position of the first requests, double failures, failing recovery requests, crash at every call, file changes), after the last fault the run continues for a quiet period, one clean interval of the receiver elapses, the sender is stopped gracefully, and TLC checks on the recorded end state that the sender terminated and every eligible unchanged file is in the final directory in its latest version.", ST)
+CLAIMED["C07"] = sender_entry("A sender crash is placed at every interface call (1..40) of runs with 2-3 files, 1-2 threads, deletion on/off, with and without a 206 failure in flight, and twice in a row; the restarted real Broker recovers against the real receiver; TLC checks that after the restart no byte range the receiver listed as held and no file it held completely is transmitted again (unless a poll said so), nothing is released unconfirmed and everything is delivered.", ST)
+CLAIMED["C08"] = sender_entry("Every failure kind (refused before processing, answer lost after processing, 206 after j parts) at every position of the first three requests, combined with failing recovery requests and pairs of failures, 1-2 sender threads: TLC checks on the recorded execution that the receiver's count equals the leading parts it has on record, that the first follow-up request carries exactly the remainder, and that a file is logged as sent only when the ranges the receiver recorded add up to its size.", ST)
+CLAIMED["C16"] = sender_entry("A graceful or immediate stop is placed at every interface call (1..40) of runs with 1-2 files and threads, with and without a lost answer in flight, plus one-shot runs over all configurations; TLC checks that Broker.Start returned, that everything confirmed is recorded in the persisted queue cache, and that a fault-free graceful stop delivered every file a scan had found.", ST)
+CLAIMED["C17"] = sender_entry("TLC enumerates the eligibility matrix (hidden file / hidden directory / lock file / empty / too young / ignored / not included / symbolic link x include-hidden x minimum age x ignore and include patterns x deletion x one-shot) and file changes at every call; TLC checks on the recorded execution that only eligible names are found, transmitted or deleted, the first scan finds every eligible file, a confirmed unchanged version is never transmitted again, and what is delivered is one whole version the source had.", ST)
+CLAIMED["C13"] = dict(engine="framing", design="3 framing",
+   text="TLC explores the encoder / decoder state machines of Framing.tla (Encoder.Read, NewDecoder, PartDecoder.Read over tagged bytes) for every payload of 1-3 parts, every sequence of reader buffer sizes on both sides and every truncation point, and checks round trip, refusal and no-foreign-byte; every (payload, cut) is concretised and run through the real payload.Bin encoder and payload.NewDecoder in memory and through http.Client.Transmit -> http.Server.routeData -> a recording gatekeeper at gzip 0 and a seeded level; TLC evaluates the formulas on the observed parts and descriptors.",
+   note="Trusted: TLC, Json module, the harness's concretisation (names with unicode / spaces / sub-directories, both separator conventions, nanosecond times). Wrong X-STS-MetaLen announcements and a cut inside the JSON header over HTTP are outside the model (the request fails as a whole).",
+   technique="TLA+ byte-level model of the payload wire format model-checked with TLC; every enumerated case replayed on the real encoder/decoder and over real HTTP; TLC trace validation")
+GATE_NOTE = ("Trusted: TLC, Json module, the harness's rendering of abstract requests and its before/after listing of the sandbox (the messages log is excluded). The receiver is the real sts binary (built with -tags verif for the pause point only). "
+  "A server is restarted after every request that touched the disk so that asynchronous effects are attributed to the right request. Open finding S14 (Recover started as a goroutine) is exempted by a switch for requests sent before recovery was scheduled.")
+CLAIMED["C14"] = dict(engine="gate", design="3 gate",
+   text="TLC enumerates every abstract request of Gate.tla (6 routes x source values x key values x names / rename targets / static paths built from '..', absolute, empty and dot segments x configured source and key lists x recovery in progress) and checks confinement and 'refused means no effect' on a model of handleValidate, the source -> directory mapping and the routes; a seeded sample (quick) or all (thorough) are rendered (header or query string, either separator, percent-encoded traversal) and sent to the real sts binary in a sandbox whose roots are a proper sub-directory; TLC evaluates the formulas on the observed status and touched locations.",
+   note=GATE_NOTE, technique="TLA+ model of the request gate model-checked with TLC; enumerated requests replayed on the real sts binary; TLC trace validation of observed status and file-system effects")
+CLAIMED["C15"] = dict(engine="gate", design="3 gate",
+   text="Same model and binding as C14, formulas: a request whose source or key is not allowed is answered 403 (400 without or with a malformed source) and touches nothing; while the start-up recovery of a source is parked at a pause point inside the real Recover(), its requests are answered 503 and touch nothing.",
+   note=GATE_NOTE, technique="TLA+ model of the request gate model-checked with TLC; enumerated requests replayed on the real sts binary with recovery parked at a hook; TLC trace validation")
+
 NOT_YET = {}
 ALL = ["C%02d" % i for i in range(1, 21)]
 
@@ -79,6 +106,12 @@ def main():
              "serves_properties": ["C18"], "kind_free_text": "TLC design check + behaviour replay + TLC trace validation"},
             {"name": "conf", "path": "spec/Conf.tla spec/MCConf.tla spec/ConfTrace.tla harness/cmd/stsh/conf.go lib/check_conf.py",
              "serves_properties": ["C19"], "kind_free_text": "TLC enumeration + replay + TLC trace validation"},
+            {"name": "sender", "path": "spec/SenderEnv.tla spec/SenderTrace.tla harness/cmd/stsh/sender.go lib/check_sender.py",
+             "serves_properties": ["C02", "C03", "C07", "C08", "C16", "C17"], "kind_free_text": "TLC-enumerated schedules executed on the real Broker + receiver; TLC trace validation"},
+            {"name": "framing", "path": "spec/Framing.tla spec/MCFraming.tla spec/FramingTrace.tla harness/cmd/stsh/framing.go lib/check_framing.py",
+             "serves_properties": ["C13"], "kind_free_text": "TLC design check + replay + TLC trace validation"},
+            {"name": "gate", "path": "spec/Gate.tla spec/MCGate.tla spec/GateTrace.tla harness/cmd/stsh/gate.go lib/check_gate.py",
+             "serves_properties": ["C14", "C15"], "kind_free_text": "TLC design check + replay on the real binary + TLC trace validation"},
             {"name": "payload", "path": "spec/Payload.tla spec/MCPayload.tla spec/PayloadTrace.tla harness/cmd/stsh/payload.go lib/check_payload.py",
              "serves_properties": ["C11"], "kind_free_text": "TLC design check + behaviour replay + TLC trace validation"},
         ],
